@@ -30,6 +30,10 @@ can be the initialiser of a named local (`local=`), the condition of the k-th `i
 by declaration position); `opaque=[callee]` turns the value of `this->callee()` (const noexcept, no arguments)
 into an extra parameter.
 
+Character cursors (`const char*` / `const char**`: ONE byte array `buf`, pointers are indices) and output strings (`std::string&` /
+back_insert_iterator parameters and local `std::string`s that are only appended to: byte lists, part of the state σ) are translated
+in JOIN style by x2l_st.py `jblock`; see tools/GUIDE.md "Source ties".
+
 Semantics: lean/Osmium/Model/CxxSem.lean.  Each definition `f` comes with `f_defined` (no undefined
 behaviour: signed overflow, shift amount, division by zero, abs(MIN), double -> int out of range; plus
 exactness of integer-valued double arithmetic) and `f_typed` (arguments are values of their C++ types).
@@ -209,6 +213,9 @@ TARGETS = [
     dict(fn='osmium::io::detail::append_2_hex_digits'),
     dict(fn='osmium::io::detail::append_min_4_hex_digits'),
     dict(fn='osmium::io::detail::append_utf8_encoded_string'),
+    # opl_parse_tags drives a TagListBuilder (outside the subset): the test that ends its loop is translated
+    dict(fn='osmium::io::detail::opl_parse_tags', cond=0, name='opl_parse_tags_cond_end'),
+    dict(fn='osmium::io::detail::opl_parse_timestamp', cond=0, name='opl_parse_timestamp_cond_empty'),
 ]
 
 
